@@ -120,6 +120,7 @@ class LG:
             "trailing_comma", "chain_multibody", "nested_call_arg", "cond_expr", "backslash", "comprehension", "where_single", "where_chain", "lambda_own_line_chain",
             "decoy_default_arg", "string_noise_line", "def_by_name", "def_by_name_docstring", "lambda_var", "three_chain_args",
             "def_nested_by_name", "kwarg_lambda", "factory_lambda", "kwarg_const_after", "user_wrapper_const", "two_param_elsewhere", "after_multiline_string", "cond_lambda_arg", "cond_lambda_arg", "cond_lambda_two_calls", "cond_lambda_two_calls", "list_lambda_arg", "or_lambda_arg", "dict_lambda_arg", "wrapped_lambda_arg",
+            "first_arg_wrapper_const", "backslash_string_decoy", "paren_lambda_names", "after_multiline_lambda_close", "unrelated_lambda_not_arg", "unrelated_lambda_not_arg",
         ])
         p = self.pname()
         B = lambda **kw: self.body(p, **kw)  # noqa
@@ -263,6 +264,29 @@ class LG:
         if t == "after_multiline_string":
             b1, f = B()
             return t, False, True, f'r = ds.Where(lambda q: q.title != """\n old: Select(lambda {p}: {p}.fake) """).Select(lambda {p}: {b1})  # """', f
+        if t == "first_arg_wrapper_const":
+            # a constant-body lambda handed to a helper as its FIRST argument, the helper passes it on; another first-argument lambda
+            # with the same parameter on the line
+            self.k += 1
+            b1, f = B()
+            return t, False, True, r.choice([f"r = with_flag(lambda {p}: {self.k}, ds).Select(lambda {p}: {b1})", f"r = with_flag(lambda {p}: {self.k}, ds.Select(lambda {p}: {b1}))",
+                                             f"r = with_flag(lambda {p}: 's{self.k}', ds.Select(lambda {p}: {b1}).Select(lambda {p}: {self.k}))"]), "constant-body"
+        if t == "backslash_string_decoy":
+            # the line of the call starts inside a one-quote string continued with a backslash; the string holds code-like text
+            self.k += 1
+            return t, False, True, f"note = 'the old query was \\\n{{IND}}ds.Select(lambda {p}: {self.k}) # '; r = ds.Select(lambda {p}: -{self.k})", "constant-body"
+        if t == "paren_lambda_names":
+            b1, f = B()
+            return t, True, True, r.choice([f"r = ds.Select((lambda {p}: {b1})).Where(lambda {p}: True)", f"r = ds.Where(lambda {p}: True).Select((lambda {p}: {b1}))",
+                                            f"r = sorted([ds.Where(lambda {p}: True)], key=lambda {p}: 0)[0].Select(lambda zz: {self.body('zz')[0]})"]), f
+        if t == "after_multiline_lambda_close":
+            (b1, f), (b2, _) = B(), B(where=True)
+            return t, True, True, f"r = ds.Select(lambda {p}: {p}.js.Select(\n{{IND}}    lambda j: j.pt + 1)).Where(lambda pts: {self.body('pts', where=True)[0]})", "where"
+        if t == "unrelated_lambda_not_arg":
+            # another lambda on the line that is no argument of a call (in a list / dict display, assigned, after a semicolon)
+            b1, f = B()
+            return t, True, True, r.choice([f"scale = [lambda x_: x_ * 2]; r = ds.Select(lambda {p}: {b1})", f"r = {{'pt': ds.Select(lambda {p}: {b1}), 'scale': lambda x_: x_ * 2}}['pt']",
+                                            f"r = ds.Select(lambda {p}: {b1}); scale = lambda x_: x_ * 2", f"r = (ds.Select(lambda {p}: {b1}), [lambda x_: [x_, 8][0]])[0]"]), f
         if t == "kwarg_lambda":
             b, f = B()
             return t, False, False, f"r = ds.Select(f=lambda {p}: {b})", f
@@ -323,6 +347,7 @@ FLAG = [True, True]
 def helper(f, *a): return True
 def keep(a, b): return b
 def then(s, f): return s.Select(f)
+def with_flag(f, d): return d.Select(f)
 def deco(f): return f
 @contextlib.contextmanager
 def cm():
